@@ -1491,6 +1491,8 @@ class Interp:
             f = self.prog.find_method(cur.cls, '__iadd__')
             if f is not None:
                 r = self.call_function(f, [cur, rhs], {}, fr, self_cls=cur.cls)
+                if not isinstance(r, VObj) or r is not cur:
+                    r = cur      # __iadd__ under contract: its own verification proves `result is self`
                 self.assign_target(tgt, r, fr)
                 return
         v = self.binop(st.op, cur, rhs, fr, st)
@@ -1692,6 +1694,7 @@ class Interp:
         """names assigned and root names possibly mutated in the loop body"""
         assigned, mutated = set(), set()
         self._stored_fields = {}
+        self._aug_names = set()
         body_nodes = list(st.body) + list(getattr(st, 'orelse', []))
         for b in body_nodes:
             for n in ast.walk(b):
@@ -1728,6 +1731,8 @@ class Interp:
                         r = r.value
                     if isinstance(r, ast.Name):
                         mutated.add(r.id)
+                        if isinstance(n.target, ast.Name):
+                            self._aug_names.add(r.id)
         if isinstance(st, ast.For):
             for n in ast.walk(st.target):
                 if isinstance(n, ast.Name):
@@ -1743,8 +1748,16 @@ class Interp:
                     fr.locals[name] = VSeq(self.path.fresh_seq('%s.%s' % (tag, name)), v.kind)
                 elif isinstance(v, (VList, VDict, VAbsList)):
                     fr.locals[name] = VAbsList('dict' if isinstance(v, VDict) or getattr(v, 'kind', '') == 'dict' else 'list')
+                elif isinstance(v, VObj) and name in self._aug_names and not any(
+                        isinstance(n_, ast.Assign) and any(isinstance(t_, ast.Name) and t_.id == name for t_ in n_.targets)
+                        for b_ in st.body for n_ in ast.walk(b_)):
+                    # only `x += y` on an object with __iadd__: the same object, mutated in place
+                    flds = set(self.reg.mutable_fields(v.cls))
+                    self.havoc_object(v, '%s.%s' % (tag, name), flds)
                 elif isinstance(v, (VObj, VMap)):
-                    raise OutOfSubset('loop reassigns object variable %s' % name)
+                    # rebound inside the loop: its value at the loop head is unknown; leave it undefined so that a read
+                    # before the re-assignment is reported instead of silently using a stale object
+                    del fr.locals[name]
                 else:
                     fr.locals[name] = self.havoc_value(v, '%s.%s' % (tag, name))
         for name in sorted(mutated - assigned):
@@ -1818,6 +1831,10 @@ class Interp:
 
     def st_For(self, st, fr):
         it = self.ev(st.iter, fr)
+        if isinstance(it, VAbsList) and isinstance(st.iter, ast.Name) and self.current_contract is not None \
+                and st.iter.id in self.current_contract.local_types and fr.func is self.current_target:
+            # a list built element by element in an earlier loop: its declared element type (sidecar local())
+            it = self.reg.fresh_of_type(self, self.current_contract.local_types[st.iter.id], st.iter.id, fr.module)
         # concrete-length iterables: unroll
         if isinstance(it, (VTuple, VList)):
             for x in list(it.items):
@@ -1925,6 +1942,14 @@ class Interp:
         # pre-state snapshot for old()
         cf.old = self.snapshot_frame(cf)
         cname = func.qualname
+        # parameter annotations that carry a range (Nat, Byte) are preconditions: checked at every call site
+        for pname, ann in contract.params.items():
+            if isinstance(ann, ast.Name) and ann.id in ('Nat', 'Byte') and pname in cf.locals:
+                v = self.force(cf.locals[pname])
+                if self.is_intlike(v):
+                    t = self.as_int(v)
+                    g = t >= 0 if ann.id == 'Nat' else z3.And(t >= 0, t <= 255)
+                    self.prove(g, 'pre@call', 'pre@%s.%s:%s' % (cname, pname, ann.id), 0)
         for i, r in enumerate(contract.requires):
             t = self.truth(self.ev(r, cf))
             self.prove(t, 'pre@call', 'pre@%s.%d' % (cname, i), getattr(r, 'lineno', 0))
